@@ -1,4 +1,5 @@
 import Mingus.Model.Basic
+import Mingus.Model.Float
 /- Model of mingus/core/value.py and mingus/core/meter.py over exact rationals.
    Every finite double is a rational; `value.determine` only scales by powers of two and compares with constants,
    so with the constants' exact dyadic values the rational model *is* the float function (no approximation).
@@ -59,6 +60,19 @@ def tuplet (value : Rat) (r1 r2 : Nat) : Rat := r1 * value / r2
 /-- exact-arithmetic readings of `add`, `subtract`, `dots` -/
 def add (a b : Rat) : Rat := 1 / (1 / a + 1 / b)
 def subtract (a b : Rat) : Rat := 1 / (1 / a - 1 / b)
+
+/-- `add` / `subtract` as the code computes them, in double arithmetic: `1 / (1.0 / a ± 1.0 / b)`, every operation rounded;
+    a zero operand or a zero sum is a ZeroDivisionError -/
+def addF (a b : Rat) : Except Err Rat :=
+  if a = 0 ∨ b = 0 then .error .zeroDiv
+  else
+    let s := F64.add (F64.div 1 a) (F64.div 1 b)
+    if s = 0 then .error .zeroDiv else .ok (F64.div 1 s)
+def subtractF (a b : Rat) : Except Err Rat :=
+  if a = 0 ∨ b = 0 then .error .zeroDiv
+  else
+    let s := F64.sub (F64.div 1 a) (F64.div 1 b)
+    if s = 0 then .error .zeroDiv else .ok (F64.div 1 s)
 def dotsExact (value : Rat) (nr : Nat) : Rat := value / 2 / (1 - 1 / (2 : Rat) ^ (nr + 1))
 
 /-! ### meter -/
